@@ -194,7 +194,10 @@ func (b *backend) funcs() *ociregistry.Funcs {
 
 // inproc feeds the handler through a ResponseRecorder and re-parses the serialized response
 // with http.ReadResponse, so the client sees what it would get off a socket (no body on HEAD).
-type inproc struct{ h http.Handler }
+type inproc struct {
+	h http.Handler
+	n atomic.Int64
+}
 
 func (t *inproc) RoundTrip(req *http.Request) (*http.Response, error) {
 	var body io.ReadCloser = http.NoBody
@@ -225,6 +228,13 @@ func (t *inproc) RoundTrip(req *http.Request) (*http.Response, error) {
 	noBody := req.Method == "HEAD" || res.StatusCode == 204 || res.StatusCode == 304 || res.StatusCode/100 == 1
 	if res.ContentLength < 0 {
 		res.ContentLength = int64(len(b))
+	}
+	// Every third error response is sent the way net/http sends bodies it has to stream (and all
+	// error bodies over ~2 KiB): chunked, without a Content-Length. The client then sees ContentLength -1.
+	if !noBody && res.StatusCode >= 400 && t.n.Add(1)%3 == 0 {
+		res.ContentLength = -1
+		res.TransferEncoding = []string{"chunked"}
+		res.Header.Del("Content-Length")
 	}
 	if noBody {
 		res.Body = http.NoBody
@@ -268,7 +278,7 @@ func buildChain(b ociregistry.Interface, hops int, loopback bool) (*chain, error
 			servers = append(servers, s)
 			c, err = ociclient.New(s.Listener.Addr().String(), &ociclient.Options{Insecure: true, Transport: tr, DebugID: "cl"})
 		} else {
-			c, err = ociclient.New(fmt.Sprintf("hop%d.test", i+1), &ociclient.Options{Insecure: true, Transport: &inproc{h}, DebugID: "cl"})
+			c, err = ociclient.New(fmt.Sprintf("hop%d.test", i+1), &ociclient.Options{Insecure: true, Transport: &inproc{h: h}, DebugID: "cl"})
 		}
 		if err != nil {
 			ch.cleanup()
